@@ -16,7 +16,9 @@ THEOREMS = ['Tbox.C09.' + t for t in [
     'C09_file_whole_records', 'C09_file_rollover', 'C09_disable_flushes',
     'C09_flushK_refines_flush', 'C09_file_whole_records_faults', 'C09_file_faults_on_disk', 'C09_file_fault_recovery',
     'C09_disable_retry_counterexample', 'C09_file_midbatch_rollover_counterexample', 'C09_file_persistent_open_failure', 'C09_flushK_len',
-    'C09_stdout_faults', 'C09_stdout_short_write_counterexample',
+    'C09_stdout_faults', 'C09_stdout_faults_write_only', 'C09_stdout_short_write_counterexample', 'C09_stdout_poll_break_counterexample',
+    'C09_piece_whole', 'C09_render_pieces', 'C09_piece_overread_counterexample',
+    'C09_file_reopen_whole_records_partial', 'C09_file_reconf_tail_counterexample', 'C09_file_setmax',
     'C09_truncate_width', 'C09_vsnprintf_negative_counterexample', 'C09_puts_width', 'C09_reentrant_sink_deadlocks']]
 SOURCES = ['modules/log/sink.cpp', 'modules/log/async_sink.cpp', 'modules/log/async_file_sink.cpp',
            'modules/log/async_stdout_sink.cpp', 'modules/log/async_syslog_sink.cpp', 'modules/log/sync_stdout_sink.cpp',
@@ -44,23 +46,40 @@ TRUSTED = ['model lean/TboxModel/C09/Model.lean hand-written from log_impl.cpp, 
            'EFBIG EDQUOT EPIPE EMFILE EACCES EEXIST, transient or persistent) and is recorded (K lines); the acceptor replays the recorded calls through '
            'flushKLen (= length image of flushK, C09_flushK_len) with the kernel answers as the oracle (model-internal class: a divergence there alone is '
            'reported as no-failing-input-found); SyncStdoutSink goes through stdio, whose internal write calls cannot be interposed (trusted)',
+           'poll(fd 1, POLLOUT) - the wait of the async stdout sink after EAGAIN - is interposed as well: its answer comes from the fault plan (p<idx> = READY | ZERO | EINTR | '
+           'ENOMEM | EINVAL) or from the kernel, and is recorded (K lines: every EAGAIN must be followed by exactly one poll, model-internal class); in pipe mode (sink aoutp) '
+           'fd 1 is the write end of a real non-blocking pipe of 4-64 KiB that nobody reads until off: write() really returns short counts and EAGAIN, the back-end '
+           'thread really waits in poll(), and `sig` delivers a handled SIGUSR1 to exactly that thread with pthread_kill (poll fails with EINTR: recorded); a reader thread '
+           'drains the pipe when off begins.  No P line depends on how many polls were interrupted or on any timing',
+           'file sinks reconfigured while in use (fcfg: setFilePath / setFilePrefix / setFileSyncEnable / setFileMaxSize, to the same or a new value) are called at quiescent '
+           'points (after settle); files of several directories / prefixes are listed in the order in which their open(O_CREAT) succeeded (recorded by the interposer)',
            'pthread_mutex_lock/unlock are interposed only to detect a re-lock of a held non-recursive mutex inside the re-entrancy probe (EDEADLK instead of blocking for ever)',
            'data-race freedom itself is not exhibited by the model: it is searched with ThreadSanitizer in the thorough tier (1-8 threads logging while '
            'the main thread enables/disables/reconfigures sinks, also concurrently: runc)']
-ASSUMPTIONS = ['module, function and file names < 1000 bytes (each snprintf piece fits the 1 KiB stack buffer; longer ones over-read it: outside the quantifier)',
+ASSUMPTIONS = ['names of any length are delivered whole after patches/C09-08 (C09_piece_whole; as found a piece of 1024 bytes or more was read beyond the 1 KiB stack buffer: '
+               'C09_piece_overread_counterexample); names up to 1200 characters are driven',
                'module/function/file strings outlive the asynchronous back end (the pipe carries the pointers, not the characters)',
                'puts-path strings < 2^32 bytes (C09_puts_width: strlen narrows to uint32 before the comparison; a 4 GiB string is not driven); the formatted text + 1 '
                'fits the thread stack (char buffer[buff_size] is a VLA); limits <= SIZE_MAX; enableColor() is called only while the sink has no record in flight '
                '(enable_color_ is an unsynchronised bool)',
                'what the kernel refuses for ever cannot be on disk: it is retained in memory without bound (C09_file_whole_records_faults); close() failing is ignored '
                'by the code (data the kernel drops at close is outside the model); a hard error on fd 1 drops the rest of that batch (C09_stdout_faults); '
-               'syslog and stdio writes are complete; the log directory is not modified by others; setFilePath/Prefix/SyncEnable are not called while a tail is cached',
+               'syslog and stdio writes are complete; the log directory is not modified by others; setFilePath/Prefix/SyncEnable are not called while a tail is cached after a write '
+               'error (C09_file_reconf_tail_counterexample + props/C09/findings/reconf-with-cached-tail.ops: the tail goes to the NEW file, the record is split) and not concurrently '
+               'with a flush (fd_ is an unsynchronised int); a text that ends in "(TRUNCATED)" is indistinguishable from a truncated text in the rendered line (the format has no escape)',
+               'EINTR: write(fd_) and write(1) retry it (tied, interposed and, for fd 1, with a real signal); poll() after EAGAIN: its result is ignored, the loop retries (tied both ways); '
+               'open()/mkdir()/symlink()/unlink() of the log file: EINTR is treated like any other failure - the cache is kept and the next flush() tries again (tied: kfault o/d/y = EINTR-class errors); '
+               'close(): result ignored, never retried (correct on Linux: the descriptor is released whatever close() reports; tied: c = EINTR / EIO); no fsync/fdatasync call exists '
+               '(O_DSYNC at open when file sync is enabled); syslog() returns void (glibc retries its send internally): captured, assumed complete; the timed wait of the async pipe is property C10',
                'channel functions registered with LogAddPrintfFunc do not log themselves (C09_reentrant_sink_deadlocks: they would block for ever on the plain std::mutex; '
                'the library sinks never log under the lock) - user callbacks are not in the quantifier of the statement',
                'AsyncFileSink::cleanup() has not been called before a later enable (it zeroes pid_ and every later flush returns early)']
 RULE = ('cases = sink set-ups (0-2 in-memory sinks through the public Sink API with filter tables, 0-2 real AsyncFileSinks with file limits 1 B .. 1 MiB '
         'and pipe buffers 1 B .. 10 KiB, SyncStdoutSink / AsyncStdoutSink / AsyncSyslogSink, colour on and off, short-write plans for the log files, kernel fault schedules (kfault: short count then hard error then recovery swept over every write index at '
-        'limits from below one record up, failing open/mkdir at roll-over, persistent refusal, EINTR runs, failing close/symlink, fd-1 short/EINTR/EAGAIN/EPIPE), width family '
+        'limits from below one record up, failing open/mkdir at roll-over, persistent refusal, EINTR runs, failing close/symlink, fd-1 short/EINTR/EAGAIN/EPIPE, poll after EAGAIN answered '
+        'ready / EINTR x k / ENOMEM / EINVAL / 0 at every write index), REAL signals (fd 1 a full non-blocking pipe, SIGUSR1 with a handler delivered to the back-end thread while it waits in poll), '
+        'module / function / file names that make a rendered piece 1023 / 1024 / 1025 bytes and names of 1023 .. 1200 characters, state-derived inputs (file sink setters to the SAME value while a '
+        'file is open, enable twice, setLevel to the current level, records equal to the previous record, texts equal to the truncation marker), width family '
         '(limits and lengths around 2^16, printf field widths up to INT_MAX and beyond, %lc encoding failure), a re-entrant channel function) + 1-3 runs of 1-8 logging threads (message lengths 0..max+5, around 2047/2048/2049 and around max, '
         'max in {0,10,2048,102400,...}, printf/puts/null-format calls, levels -3..10) + reconfiguration between and DURING runs (runc), disable/enable; non-trivial = a run with >= 2 '
         'active threads AND (a truncation, a filter drop, or a file sink holding records); distinct = distinct op text')
@@ -68,7 +87,8 @@ LEVEL_TEXT = ('Lean 4 theorems over a model of the logging path: truncation loop
               'exactly-once of dispatch under the global lock for every schedule (with the unlocked counterexample), re-framing of the pipe stream for '
               'EVERY chunking and every header layout, rendering of every sink (file, sync/async stdout, syslog; colour on/off; tables regenerated from the source), '
               'file rollover with whole records, flush on disable, no loss/duplication/split for EVERY kernel fault schedule (short counts, EINTR, hard errors, failing open; '
-              'retained tail, retry on disable), the stdout sink under every fd-1 fault schedule, the width-carrying format loop (int/size_t/uint32), re-entrant channel deadlock; tied to the real code on every '
+              'retained tail, retry on disable), the stdout sink under every fd-1 fault schedule INCLUDING every answer of poll() after EAGAIN (EINTR from a signal is retried), the 1 KiB '
+              'pieces for names of every length, reconfiguration of a file sink in use (with the cached-tail counterexample), the width-carrying format loop (int/size_t/uint32), re-entrant channel deadlock; tied to the real code on every '
               'run by a trace acceptor over multi-threaded runs against in-memory sinks, a real AsyncFileSink directory, captured fd 1 and captured syslog(); '
               'ThreadSanitizer pass in the thorough tier')
 LEVEL_NOTE = ('trusted: Lean kernel, hand-written model + trace-acceptor tie (coverage bounded by the generator, measured), async pipe by contract (C10), '
@@ -161,6 +181,8 @@ def fault_cases(rng, tier):
         yield ['sink file %d 1 1 2 1' % L, 'kfault 1 w0=7 w1=%s' % rng.choice(HARD), 'run 1 ' + recs(1), 'settle 60', 'off 1', 'on 1', 'run 1 ' + recs(2), 'off 1']
     # (5) EINTR runs, close()/symlink() failing: no influence on the records
     yield ['sink file 100 1 1 2 1', 'kfault 1 w0=EINTR w1=EINTR w2=EINTR w3=10 w4=EINTR c0=EIO c1=EINTR y0=EEXIST y1=EACCES', 'run 1 ' + recs(8), 'off 1']
+    # (5') EINTR from every other call on the log file: mkdir / open fail (the cache is kept, the next flush tries again), symlink / close: ignored
+    yield ['sink file 60 1 1 2 1', 'kfault 1 d0=EINTR o0=EINTR o2=EINTR y0=EINTR c0=EINTR', 'run 1 ' + recs(6), 'off 1', 'on 1', 'run 1 ' + recs(2), 'off 1']
     # (6) the async stdout sink: write(1) short / EINTR / EAGAIN (non-blocking pipe), every index; one hard error
     for i in (range(0, 4) if not quick else [0, 2]):
         yield ['sink aout 1 1 2 1', 'kfault 1 w%d=%d w%d=EAGAIN w%d=EINTR w%d=1' % (i, rng.choice([1, 5, 40]), i + 1, i + 2, i + 3), 'run 1 ' + recs(6), 'off 1']
@@ -175,6 +197,78 @@ def fault_cases(rng, tier):
         T = rng.choice([1, 2, 3])
         yield [sink, 'kfault 1 ' + rand_plan(rng, is_file, rng.choice([2, 4, 8])), 'run %d %s' % (T, recs(rng.choice([4, 8, 12]), T)), 'off 1', 'on 1',
                'run 1 ' + recs(rng.choice([1, 3])), 'off 1']
+
+
+def long_recs(n, T, ln):
+    return ' '.join('%d:%d:%s:f:x.cpp:%d:p:%d:%d' % (i % T, 1 + i % 7, 'ab'[i % 2], i, ln, i) for i in range(n))
+
+
+def poll_cases(rng, tier):
+    """the EAGAIN branch of AsyncStdoutSink::flush(): (1) write and poll answered from the fault plan - short count, EAGAIN, then poll = EINTR k
+    times | ENOMEM | EINVAL | 0 | ready, at every write index; (2) REAL signals: fd 1 is a full non-blocking pipe, the back-end thread waits in the real
+    poll(), a handled SIGUSR1 is delivered to that thread with pthread_kill (poll fails with EINTR), then a reader drains the pipe"""
+    quick = tier == 'quick'
+    answers = ['EINTR', 'ENOMEM', 'EINVAL', 'ZERO', 'READY']
+    for i in ([0, rng.randrange(1, 4)] if quick else range(0, 5)):
+        for a in (['EINTR', rng.choice(answers[1:])] if quick else answers):
+            k = rng.choice([1, 2, 3]) if a == 'EINTR' else 1
+            plan = ['w%d=%d' % (i, rng.choice([1, 5, 40, 71]))]
+            for j in range(k):
+                plan += ['w%d=EAGAIN' % (i + 1 + j), 'p%d=%s' % (j, a)]
+            yield ['sink aout 1 1 2 1', 'kfault 1 ' + ' '.join(plan), 'run 1 ' + recs(6), 'off 1']
+    # one big batch, colour, EAGAIN/poll pairs mixed with EINTR from write itself
+    yield ['sink aout 10240 2 20 100', 'color 1 1', 'kfault 1 w0=100 w1=EAGAIN p0=EINTR w2=EAGAIN p1=EINTR w3=33 w4=EINTR w5=EAGAIN p2=ENOMEM w6=EAGAIN p3=ZERO',
+           'run 2 ' + recs(10, 2), 'off 1', 'on 1', 'run 1 ' + recs(2), 'off 1']
+    # a hard error of write() after an interrupted poll: only THAT ends the batch
+    yield ['sink aout 1 1 2 1', 'kfault 1 w1=3 w2=EAGAIN p0=EINTR w3=EPIPE', 'run 1 ' + recs(5), 'off 1']
+    yield ['kfault 1 p0=EINTR', 'sink aout 1 1 2 1', 'kfault 1 p0=5', 'kfault 1 p0=READY', 'kfault 1 o0=READY', 'sig 1 1', 'sig 2 1', 'sink aoutp 10240 2 20 1 100', 'sink aoutp 1 1 2 1 4096', 'sink aoutp 1 1 2 1',
+           'run 1 ' + recs(2), 'off 1']
+    # real signals: one batch bigger than the pipe (short write, then EAGAIN) / one flush per record (all-or-EAGAIN below PIPE_BUF)
+    yield ['sink aoutp 10240 2 20 100 4096', 'run 1 ' + long_recs(13, 1, 400), 'settle 100', 'sig 1 3', 'off 1']
+    yield ['sink aoutp 10240 2 20 1 4096', 'sink rec', 'runp 2 700 ' + long_recs(60, 2, 60), 'settle 100', 'sig 1 2', 'off 1', 'on 1', 'run 1 ' + recs(3), 'off 1']
+    if not quick:
+        for psz, n, ln in ((4096, 20, 300), (8192, 30, 400), (16384, 12, 2049), (65536, 40, 2047), (4096, 150, 0), (4096, 5, 3000)):
+            yield ['sink aoutp %d %d 20 %d %d' % (rng.choice([5000, 10240, 100000]), rng.choice([1, 2]), rng.choice([1, 5, 100]), psz), 'color 1 %d' % rng.randrange(2),
+                   'run %d %s' % (rng.choice([1, 2, 3]), long_recs(n, 1, ln)), 'settle 100', 'sig 1 %d' % rng.choice([1, 2, 5]), 'run 1 ' + recs(3), 'sig 1 1', 'off 1']
+
+
+def name_cases(rng, tier):
+    """module / function / file names that make a piece of the rendered record 1023, 1024, 1025 bytes long (the 1 KiB snprintf buffer of
+    onLogBackEnd) and names of exactly 1023 / 1024 / 1025 / 1200 characters, through every async sink"""
+    def spec(i, mod='a', func='f', file='x.cpp', kind='p', ln=9):
+        return '%d:5:%s:%s:%s:7:%s:%d:%d' % (i % 2, mod, func, file, kind, ln, i)
+    sinks = ['sink rec', 'sink file 100000 10240 2 20 100', 'sink syslog 10240 2 20 100']
+    # head piece = 31 + len(tid) + len(module): the boundary lies at module lengths 985..989 for 5- to 7-digit thread ids: sweep
+    mods = range(983, 992) if tier != 'quick' else [985, 986, 987, 988]
+    yield sinks + ['run 2 ' + ' '.join(spec(i, mod='m~%d' % n) for i, n in enumerate(mods)), 'off 2', 'off 3']
+    yield sinks + ['run 2 ' + ' '.join(spec(i, func='fn~%d' % n) for i, n in enumerate((1019, 1020, 1021, 1022, 1023, 1024, 1025))), 'off 2', 'off 3']
+    yield sinks + ['run 2 ' + ' '.join(spec(i, file='src/y.c~%d' % n) for i, n in enumerate((1020, 1021, 1022, 1023, 1024, 1025, 1026, 1031))), 'off 2', 'off 3']
+    yield ['sink aout 100 1 2 1', 'color 1 1', 'sink file 1 1 1 2 1',
+           'run 2 ' + ' '.join(spec(i, mod='m~%d' % a, func='g~%d' % b, file='z.h~%d' % c, kind='ps'[i % 2], ln=rng.choice([0, 3, 2049]))
+                               for i, (a, b, c) in enumerate(((1023, 1023, 1023), (1024, 1024, 1024), (1025, 1025, 1025), (1200, 1, 1200), (1, 1200, 1)))), 'off 1', 'off 2']
+    yield ['sink rec', 'lvl 1 m~1024 3', 'run 1 0:5:m~1201:f:x.cpp:1:p:3:1 0:5:m~0:f:x.cpp:1:p:3:1 0:5:~5:f:x.cpp:1:p:3:1 0:5:m~5~6:f:x.cpp:1:p:3:1', 'run 1 0:5:mm~2:f:x.cpp:1:p:3:1']
+
+
+def state_cases(rng, tier):
+    """inputs equal to the state the objects already hold: setFilePath / setFilePrefix / setFileMaxSize / setFileSyncEnable to the SAME value
+    while a file is open (quiescent back end, nothing cached), enable() twice, setLevel to the current level, records equal to the previous
+    record, texts equal to the truncation marker"""
+    for what in ('path same', 'prefix same', 'sync 0', 'max 100000', 'path new', 'prefix new', 'sync 1', 'max 10', 'max 0'):
+        yield ['sink file 100000 1 1 2 1', 'run 1 ' + recs(3), 'settle 60', 'fcfg 1 ' + what, 'run 2 ' + recs(4, 2), 'settle 60', 'fcfg 1 ' + what, 'fcfg 1 ' + what,
+               'run 1 ' + recs(2), 'off 1', 'on 1', 'fcfg 1 ' + what, 'run 1 ' + recs(2), 'off 1']
+    yield ['sink file 150 10240 2 20 100', 'fcfg 1 path same', 'fcfg 1 prefix same', 'run 2 ' + recs(8, 2), 'off 1', 'fcfg 1 path new', 'on 1', 'on 1', 'run 1 ' + recs(3), 'off 1', 'off 1']
+    yield ['sink rec', 'fcfg 1 path same', 'sink file 100 1 1 2 1', 'fcfg 2 path old', 'fcfg 2 max x', 'fcfg 2 sync 2', 'fcfg 3 path same', 'fcfg 2 frob same', 'run 1 ' + recs(2), 'off 2']
+    # enable twice, level set to what it is, limit set to what it is
+    yield ['max 102400', 'max 102400', 'sink rec', 'sink file 200 100 1 2 5', 'on 1', 'on 2', 'lvl 1 * 8', 'lvl 1 * 8', 'lvl 1 a 4', 'lvl 1 a 4', 'lvl 2 b 3', 'lvl 2 b 3',
+           'run 2 ' + recs(12, 2), 'on 1', 'lvl 1 a 4', 'unset 1 b', 'unset 1 b', 'runc 2 4 lvl,1,a,4 lvl,2,b,3 lvl,1,*,8 max,102400 ' + recs(12, 2), 'off 2', 'off 2', 'on 2', 'on 2', 'run 1 ' + recs(2), 'off 2']
+    # records equal to the previous record (all fields, same line), on one thread and on two
+    same = '0:5:a:f:x.cpp:7:p:20:3'
+    for sink in ('sink file 100000 10240 2 20 100', 'sink file 1 1 1 2 1', 'sink aout 7 1 2 1', 'sink syslog 64 1 2 5', 'sink sout'):
+        yield ['sink rec', sink, 'run 2 ' + ' '.join([same] * 4 + [same.replace('0:', '1:', 1)] * 3 + ['0:5:a:f:x.cpp:7:s:20:3'] * 2 + ['0:5:a:f:x.cpp:7:n:0:0'] * 2), 'off 2']
+    # texts that end like the marker, at limits around their length
+    for mx in (None, 0, 10, 11, 12, 13, 23):
+        yield ([] if mx is None else ['max %d' % mx]) + ['sink rec', 'sink file 100000 100 2 5 5', 'sink aout 7 1 2 1',
+               'run 2 ' + ' '.join('%d:5:a:%s:%s:7:m:%d:%d' % (i % 2, 'f-'[i % 2], ['x.cpp', '-'][i // 2 % 2], i % 4, i) for i in range(8)), 'off 2', 'off 3']
 
 
 def width_cases(rng, tier):
@@ -266,6 +360,10 @@ def gen_case(rng, tier, conc=0.15):
                 specs.append('%d:%d:%s:%s:%s:%d:%s:%d:%d' % (
                     t, rng.choice([-3, 0, 1, 2, 3, 4, 5, 6, 7, 8, 10]), rng.choice(MODS + ['-'] if rng.random() < 0.1 else MODS),
                     rng.choice(FUNCS), rng.choice(FILES), rng.choice([0, 1, 42, 99999, -7]), kind, ln, rng.randrange(1000)))
+        if specs and rng.random() < 0.2:
+            specs += [rng.choice(specs)] * rng.choice([1, 2, 3])      # a record equal to an earlier one
+        if rng.random() < 0.1:
+            specs.append('%d:5:%s:f:x.cpp:3:m:%d:1' % (rng.randrange(T), rng.choice(MODS), rng.randrange(4)))
         rng.shuffle(specs)
         if nsinks and rng.random() < conc:
             acts = conc_acts()
@@ -330,6 +428,12 @@ def gen(rng, tier):
     for c in fault_cases(rng, tier):
         yield c
     for c in width_cases(rng, tier):
+        yield c
+    for c in poll_cases(rng, tier):
+        yield c
+    for c in name_cases(rng, tier):
+        yield c
+    for c in state_cases(rng, tier):
         yield c
     for c in paced_cases(rng):
         yield c
